@@ -420,7 +420,13 @@ func genC02(r *rng, tier string, emit func(string)) {
 	if tier == "thorough" {
 		n = 600
 	}
-	lens := []int{1, 2, 31, 32, 33, 63, 64, 65, 95, 96, 97, 127, 128, 129, 255, 256, 257}
+	for i, l := range []int{55, 119, 183, 247, 56, 120} { // |x2 ‖ M ‖ y2| ≡ 55 / 56 mod 64: the SM3 padding boundary, every time
+		k := r.sm2key()
+		mode := []string{"c1c3c2", "c1c2c3", "asn1"}[i%3]
+		emit(fmt.Sprintf("sm2enc %s %s %s %s %s %s", bhex(k.x), bhex(k.y), mode, hx(r.bytes(l)), hx(r.bytes(80)), bhex(k.d)))
+	}
+	// around the KDF block (32) and around the SM3 padding boundary of C3 = SM3(x2 ‖ M ‖ y2): 64 + |M| ≡ 55, 56, 63, 0 mod 64
+	lens := []int{1, 2, 31, 32, 33, 54, 55, 56, 57, 63, 64, 65, 95, 96, 97, 118, 119, 120, 127, 128, 129, 183, 184, 255, 256, 257}
 	for i := 0; i < n; i++ {
 		k := r.sm2key()
 		l := r.pick(lens)
@@ -658,6 +664,25 @@ func genC13(r *rng, tier string, emit func(string)) {
 				ds[(i+2)%4] = bd[3-i%4]
 			}
 			emit(fmt.Sprintf("sm2kex %d %s %s %s %s %s %s", r.pick([]int{16, 32, 48}), id(), id(), bhex(ds[0]), bhex(ds[1]), bhex(ds[2]), bhex(ds[3])))
+		}
+	}
+	// a party whose t = d + x̄·r mod n is sparse (2^k + small, k ≥ 129: a long run of zero digits in the recoded scalar of
+	// [t](P + [x̄]R)): ordinary valid keys, built as d = t − x̄·r
+	{
+		c := sm2.P256Sm2()
+		N := c.Params().N
+		for _, sh := range []uint{129, 160, 200, 255} {
+			rs, b, rb := r.sm2key(), r.sm2key(), r.sm2key()
+			xbar := new(big.Int).And(rs.x, new(big.Int).Sub(new(big.Int).Lsh(big.NewInt(1), 127), big.NewInt(1)))
+			xbar.Add(xbar, new(big.Int).Lsh(big.NewInt(1), 127))
+			t := new(big.Int).Lsh(big.NewInt(1), sh)
+			t.Add(t, big.NewInt(int64(1+r.intn(9)))).Mod(t, N)
+			d := new(big.Int).Mul(xbar, rs.d)
+			d.Sub(t, d).Mod(d, N)
+			if d.Sign() == 0 {
+				continue
+			}
+			emit(fmt.Sprintf("sm2kex %d %s %s %s %s %s %s", 32, id(), id(), bhex(d), bhex(b.d), bhex(rs.d), bhex(rb.d)))
 		}
 	}
 	// one-byte keys that come out as 00 (once in 256): GM/T 0003.3 has no "all-zero key" step, both parties get K = 00
